@@ -285,6 +285,25 @@ class Gen:
         if k == 6:
             return "%s.items" % self.expr_obj_safe(depth - 1)
         self.features.add("comprehension")
+        if self.coin(3):
+            # the iterable of the later clause depends on the loop variable of the earlier one, and that variable hides
+            # an input of the same name and type: only the first iterable is evaluated in the enclosing scope
+            outs = [t for t in ("xs", "ys") if t not in self.targets]
+            if outs:
+                self.features.add("dependent-iterable")
+                self.features.add("target-shadows-arg")
+                t1 = self.pick(outs)
+                it1 = "[%s]" % ", ".join(self.expr("ilist", depth - 1) for _ in range(self.draw(st.integers(1, 3))))
+                saved = dict(self.targets)
+                self.targets[t1] = "ilist"
+                try:
+                    t2 = self.pick(self.free_names(["y", "z", "v", "u"]))
+                    it2 = self.pick(["%s", "%s[1:]", "%s[:2]", "sorted(%s)", "(%s + [1])"]) % t1
+                    self.targets[t2] = "int"
+                    elt = self.expr("int", depth - 1)
+                finally:
+                    self.targets = saved
+                return "[%s for %s in %s for %s in %s]" % (elt, t1, it1, t2, it2)
         t1, it1, c1 = self.comp_clause(depth - 1)
         saved = dict(self.targets)
         self.targets[t1] = "int"
